@@ -179,10 +179,12 @@ def _collect(tier, cd):
         # non-canonical during the same run (C08_Canonical is reported at the step that introduces it)
         culprits = {}
         for tid, l, clause in res.verdicts:
-            if clause == "C08_Canonical":
+            if clause == "I_Canonical":
                 ev = runs[tid]["ev"][l - 1]
                 culprits.setdefault(tid, set()).add(S.text(ev["rule"]) if "rule" in ev else "phase1-normalisation")
         for tid, l, clause in res.verdicts:
+            if clause.startswith("I_"):
+                continue
             f = F.describe(runs[tid], l, clause, S)
             if clause in ("C08_SameTokens", "C08_SameIndent", "C08_Accepted") and tid in culprits:
                 f["rule"] = ",".join(sorted(culprits[tid]))
